@@ -110,6 +110,23 @@ def rule(rid, title):
     return deco
 
 
+def premise(ctx, module, rule_ids, why):
+    """Re-run rules of another property whose conclusion this property's argument rests on; their violations are reported here too."""
+    import importlib
+    importlib.import_module(f"rules.{module}")
+    c = Ctx(module, ctx.tier, config=ctx.config, shadow=True)
+    c.P = ctx.P
+    ran = 0
+    for fn in _RULES.get(module, []):
+        if fn.rule_id in rule_ids:
+            run_rule(c, fn)
+            ran += 1
+    ctx.floor("premise rules run", ran, len(rule_ids))
+    ctx.bulk(f"premise obligations ({', '.join(sorted(rule_ids))})", c.obligations, [])
+    for v in c.violations:
+        ctx.ob(f"premise {v.rule}:{v.key}"[:120], False, f"{why}: " + v.what[:300], site=getattr(v, "site", None))
+
+
 def _unevaluable():
     from analysis.terms import NotTabulable
     return (KeyError, IndexError, TypeError, ValueError, AttributeError, AssertionError, RecursionError, NameError, NotTabulable)
